@@ -7,7 +7,7 @@ from typing_extensions import override
 
 from .decodestate import DecodeState
 from .encodestate import EncodeState
-from .exceptions import EncodeError, odxassert, odxraise
+from .exceptions import DecodeError, EncodeError, odxassert, odxraise
 from .field import Field
 from .odxlink import OdxDocFragment
 from .odxtypes import ParameterValue
@@ -80,7 +80,13 @@ class EndOfPduField(Field):
             # here: it says that the item is repeated until the end of
             # the PDU, but it means that DOP of the items that are
             # repeated are identical, not their values
+            item_pos = decode_state.cursor_byte_position
             result.append(self.structure.decode_from_pdu(decode_state))
+            if decode_state.cursor_byte_position <= item_pos:
+                # an item which does not consume any data would be
+                # repeated forever
+                raise DecodeError(f"An item of end-of-pdu field {self.short_name} "
+                                  f"does not consume any data")
 
         decode_state.origin_byte_position = orig_origin
 
